@@ -117,12 +117,12 @@ func (round *round1) Update() (bool, *tss.Error) {
 		r1msg := round.temp.dgRound1Messages[0].Content().(*DGRound1Message)
 		candidate, err := r1msg.UnmarshalECDSAPub(round.Params().EC())
 		if err != nil {
-			return false, round.WrapError(errors.New("unable to unmarshal the ecdsa pub key"), msg.GetFrom())
+			return false, round.WrapError(errors.New("unable to unmarshal the ecdsa pub key"), round.temp.dgRound1Messages[0].GetFrom())
 		}
 		if round.save.ECDSAPub != nil &&
 			!candidate.Equals(round.save.ECDSAPub) {
 			// uh oh - anomaly!
-			return false, round.WrapError(errors.New("ecdsa pub key did not match what we received previously"), msg.GetFrom())
+			return false, round.WrapError(errors.New("ecdsa pub key did not match what we received previously"), round.temp.dgRound1Messages[0].GetFrom())
 		}
 		round.save.ECDSAPub = candidate
 	}
